@@ -112,6 +112,41 @@ def body(run):
                 for tk, c in ic.trace_cases(r['rec'], lambda t: 2 if t.startswith('p1t') else 3, default_lock=4):
                     cases.append(c)
                     metas.append(dict(desc, task=tk, observed_codes=c[2:]))
+    # ---- state shared between the blocks of DIFFERENT bands: one internal mask for the whole file (output nodata = None).  Two bands whose
+    #      invalid pixels differ: whatever the rule for the file's mask is, it must not depend on which band's block is written last
+    for mi in range(run.scale(2, 10)):
+        g = synth.aligned_geom(rng, run.scale(36, 48))
+        src = fz.texture(rng, g.src_shape, 2)
+        for b in range(2):
+            for _ in range(rng.randint(2, 5)):
+                r0, c0 = rng.randrange(g.src_shape[0]), rng.randrange(g.src_shape[1])
+                src[b, r0:r0 + rng.randint(2, 8), c0:c0 + rng.randint(2, 8)] = -9999.0
+        pair = fz.make_pair(run.work, g, rng, bands=2, src=src, tag='m', src_kw=dict(encoding='nodata', nodata=-9999.0))
+        try:
+            mbm, _nb = fz.pick_block_mem(pair['src_fn'], pair['ref_fn'], 'auto', rng.choice([6, 9, 16]), (3, 3))
+            kw = dict(model='gain', kernel_shape=(3, 3), proc_crs='auto', max_block_mem=mbm, param=False, out_profile=dict(nodata=None))
+            base = fz.fuse(pair['src_fn'], pair['ref_fn'], run.work / 'mbase.tif', threads=1, **kw)
+        except Exception as ex:
+            dist['skipped:' + type(ex).__name__] = dist.get('skipped:' + type(ex).__name__, 0) + 1
+            continue
+        bd = ic.digest(base)
+        for si in range(nsched):
+            threads = rng.choice([2, 3, 4])
+            seed = rng.randrange(10 ** 9)
+            r = ic.run_fuse(pair, run.work / 'msched.tif', rng=random.Random(seed), threads=threads, **kw)
+            desc = dict(geom=g.describe(), bands=2, per_band_nodata_holes=True, out_profile=dict(nodata=None), model='gain', kernel_shape=[3, 3],
+                        max_block_mem=mbm, threads=threads, schedule_seed=seed)
+            dist['fuse/2-band internal mask'] = dist.get('fuse/2-band internal mask', 0) + 1
+            run.count_case(('fuse-mask', mi, seed, threads), True, None)
+            if r['outcome'] != 'ok':
+                run.add_violation('fuse failed / hung under a forced schedule', desc, observed=r['outcome'], signature=dict(kind='sched-outcome', what=r['outcome'].split(':')[0]))
+            elif ic.digest(r['result']) != bd:
+                dm = r['result']['corr']['mask'] != base['corr']['mask']
+                run.add_violation('output differs from the single-threaded result under a forced schedule', desc, expected=bd,
+                                  observed=dict(mask_pixels_differing=int(dm.sum()), first_diff=fz.first_diff(r['result']['corr']['array'], base['corr']['array'])),
+                                  signature=dict(kind='sched-output', part='fuse'))
+            for v in ip.lockset_violations(r['rec'])[:1]:
+                run.add_violation(v['why'], desc, observed=v, signature=dict(kind='lockset', dataset=v['dataset']))
     failing, nt = run.corr('traces', 'Corr.CheckC04', cases, shard=600)
     for k in failing[:5]:
         run.add_break('correspondence-break', 'a block performed a lock / dataset-access sequence that is not an outcome of the generated worker program', metas[k])
